@@ -145,7 +145,9 @@ DepConds(ev) ==
                Cond("rand-once", {"C18", "C13"}, Count("Rand") = 0),
                Cond("rand-19-bytes", {"C18", "C13"}, ev.n = SecretBytes) >>
          [] ev.e = "Time" ->
-            << Cond("time-through-injected", {"C18", "C13"}, ev.impl = deps.time),
+            \* (a clock other than the one in force - a stale entry, libc behind the caller's back - says nothing about
+            \* the time of creation: the birthday bound of C11 is gone with it)
+            << Cond("time-through-injected", {"C18", "C11", "C13"}, ev.impl = deps.time),
                Cond("time-only-in-create", {"C18", "C11", "C13"} \cup OpProps(op), op = "Create"),
                Cond("time-once", {"C18", "C13"}, Count("Time") = 0) >>
          [] ev.e = "Kdf" ->
